@@ -15,6 +15,10 @@ command -- the library call the SPECIFICATION derived (PLib; the harness only bu
 every command the directory is recorded (name, content digest, written-during-this-command).
 Direction 2: Trace_Cli validates every step of every recorded behaviour against the model (multi-step,
 `l`-indexed, total verdicts): P-layer clauses -> `failed`, disagreement with the A-layer -> `drift`.
+The helper functions (core.fbase exhaustively over the extensions it knows, ensure_path, assert_equal, check_unique,
+cmdutil.write_tsv / write_text) are also judged on their own, one call per record (Trace_CliUnits).
+A vacuity guard (flag_effect_probe) removes every flag of every variant in turn and requires that the library result
+changes, so that the equivalence clause binds each flag.
 This module only generates, runs, encodes and counts; it never decides whether an output is right.
 """
 from __future__ import annotations
@@ -37,7 +41,7 @@ from .c10 import fresh_process_map
 ID = "X04"
 LEVEL = "model_checking"
 TRACE_MODULE = "Trace_Cli"
-REQUIRE_CLAUSES = ["completes", "error_equals_library", "rejects_documented_error", "out_at_explicit_path",
+REQUIRE_CLAUSES = ["completes", "library_refusal_not_hidden", "rejects_documented_error", "out_at_explicit_path",
                    "out_equals_library", "inputs_untouched", "default_to_stdout", "default_name_ext", "no_overwrite",
                    "fbase_strips_directory", "fbase_strips_extension", "fbase_known_multipart", "ae_raises_iff_unequal",
                    "ae_message_as_doctest", "cu_returns_the_item", "cu_rejects_different_items", "tsv_header_then_rows",
@@ -762,7 +766,7 @@ def run_behaviour(beh):
                         libids = [digest_file(p) for p in _run_lib(st["lib"], libout)]
                 except MachineryError:
                     raise
-                except Exception as ex:          # a refusal of the library is an outcome (error_equals_library)
+                except Exception as ex:          # a refusal of the library is an outcome (library_refusal_not_hidden)
                     liberr = _errname(ex)
                     libids = []
                 finally:
@@ -825,9 +829,9 @@ def behaviours_exhaustive(ctx, menu_path, pre, only=(), max_steps=1, ablation=Fa
     return behs
 
 
-def behaviours_simulated(ctx, menu_path, n, pre, max_steps=4):
-    cfg = ctx.cfg(f"sim-cli-{len(pre)}", spec="Spec", constants=_consts(max_steps, pre))
-    d = ctx.scratch.sub(f"sim-{len(pre)}")
+def behaviours_simulated(ctx, menu_path, n, pre, max_steps=4, only=()):
+    cfg = ctx.cfg(f"sim-cli-{len(pre)}-{len(only)}", spec="Spec", constants=_consts(max_steps, pre, only))
+    d = ctx.scratch.sub(f"sim-{len(pre)}-{len(only)}")
     ctx.tlc("MC_Cli", cfg, kind="simulate", env={"MENU_FILE": menu_path}, simulate=f"file={d}/tr,num={n}",
             depth=3 * max_steps + 1, seed=ctx.seed + 1, workers=1, coverage=False, timeout=900)
     behs = []
@@ -1278,6 +1282,7 @@ def _sample_inputs(ctx, behs, per_key):
 
 def run(ctx: Ctx):
     thorough = ctx.tier == "thorough"
+    ctx.known = _known(ctx)
     from cnvlib import commands  # noqa: F401  (imported once here so that every forked behaviour process has it)
     M = menu()
     menu_path = _menu_json(ctx.scratch.file("menu.json"))
@@ -1302,7 +1307,9 @@ def run(ctx: Ctx):
     sim = []
     for pre, share in (([], 2), ([0, 2], 1)):
         sim += behaviours_simulated(ctx, menu_path, nsim * share // 3, pre)
-    # (c) repeated writes of `reference` to one path: k runs leave k files (structured behaviours from the model's menu)
+    # (c) repeated `reference` commands (k writes to the default path leave k more files: backups .1, .2, ... next to
+    #     pre-existing ones)
+    sim += behaviours_simulated(ctx, menu_path, 40 if thorough else 12, [0, 2], only=("reference",))
     behs = picked + sim
     seen, uniq = set(), []
     for bh in behs:
@@ -1342,6 +1349,20 @@ def run(ctx: Ctx):
 def replay(ctx, doc):
     """Re-execute the recorded behaviour and let TLC judge it again (same path as the check)."""
     from cnvlib import commands  # noqa: F401
+    ctx.known = _known(ctx)
+    if doc.get("trace_module") == TRACE_UNITS:
+        from ..core import generic_replay
+        rec = doc["record"]
+        inp = {k: v for k, v in rec.items() if k in ("op", "d", "n", "keys", "vals", "items", "rows", "colnames", "texts", "path",
+                                                     "mkdirs", "existing")}
+        menu_path = _menu_json(ctx.scratch.file("menu.json"))
+        new = ctx.execute(execute_unit, [inp], processes=1)[0]
+        v = ctx.validate(TRACE_UNITS, [new], env={"MENU_FILE": menu_path})[0]
+        print(json.dumps({"input": inp, "observed": {k: x for k, x in new.items() if k not in inp}, "verdict": v}, indent=1)[:3000])
+        if ctx.violations:
+            print(f"VIOLATION property={ID} replay=(replayed) clauses={','.join(v['failed'])}")
+            return 1
+        return 0
     beh = doc["record"]["in"]["behaviour"]
     menu_path = _menu_json(ctx.scratch.file("menu.json"))
     validate_behaviours(ctx, [beh], menu_path)
